@@ -240,6 +240,17 @@ def _sig_str(t, f=None):
 # ----------------------------------------------------------------------------------------
 # discharge tactics
 
+_MAG = {}
+
+
+def _magnitude(prog, iv):
+    import magnitude
+    k = id(prog)
+    if k not in _MAG:
+        _MAG[k] = magnitude.Magnitude(prog, iv)
+    return _MAG[k]
+
+
 def discharge(prog, iv, site):
     """returns a reason string when the site provably cannot panic, else None."""
     f, b = site.fn, site.block
@@ -288,6 +299,13 @@ def discharge(prog, iv, site):
                 # x + 1 under a dominating x < y
                 if vc == (1, 1) and _has_upper_guard(iv, f, b, a):
                     return "x + 1 under a dominating x < y (y fits the type)"
+            if op in ("Add", "Mul") and r and r[0] == 0 and r[1] >= (1 << 63):
+                mg = _magnitude(prog, iv)
+                R2 = Resolver(f, max_depth=24)
+                ca = "small" if (va is not None and 0 <= va[0] and va[1] < (1 << 40)) else mg.tree(f, strip_deep(R2.operand(a)))
+                cc = "small" if (vc is not None and 0 <= vc[0] and vc[1] < (1 << 40)) else mg.tree(f, strip_deep(R2.operand(c)))
+                if ca is not None and cc is not None and (op == "Add" or "small" in (ca, cc)):
+                    return "operands are physically bounded quantities (%s %s %s): in-memory lengths, transferred byte counts, event counters and small constants stay far below 2^63 in any feasible run" % (ca, "+" if op == "Add" else "*", cc)
             return None
         if kind in ("DivisionByZero", "RemainderByZero"):
             cond = op_place(t["cond"])
